@@ -1,5 +1,7 @@
 """C05 Kriging estimates solve the kriging equations: LHS/RHS layout agreement, symmetric assembly, chunk locality."""
 import ast
+import math
+from ..small import FoldError, fold
 
 from .. import ordtype as O
 from ..loader import AnalysisError, norm_stmt
@@ -102,11 +104,24 @@ def symmetric(ctx, rule="R05.2"):
     # 2-D external drift block: transposed on exactly one side
     ext = [(r, c, ast.unparse(v)) for g, r, c, v, st in off if "ext_size" in r + c]
     ctx.check(sorted(x[2] for x in ext) == ["self.cond_ext_drift", "self.cond_ext_drift.T"], rule, KB + "::Krige._get_krige_mat", "the 2-D external drift block is transposed on exactly one side: %s" % ext, "ext-T")
-    # lower right block zeroed last
-    last = [st for st in mat.body if isinstance(st, ast.Assign) and ast.unparse(st.targets[0]).startswith("res[")]
-    stores_in_order = [norm_stmt(s) for s in sorted((x for x in ast.walk(mat) if isinstance(x, (ast.Assign, ast.AugAssign))), key=lambda x: x._ord) if ast.unparse(s.targets[0] if isinstance(s, ast.Assign) else s.target).startswith("res[")]
-    ctx.check(bool(last) and norm_stmt(last[-1]) == "res[self.cond_no:, self.cond_no:] = 0" and stores_in_order[-1] == "res[self.cond_no:, self.cond_no:] = 0", rule, KB + "::Krige._get_krige_mat",
-              "the constraint/constraint block is zeroed after all other blocks were written (np.empty start)", "zero-last")
+    # lower right (constraint x constraint) block is zero in the assembled matrix: it is zeroed (np.empty start!) and no store that comes
+    # AFTER the zeroing can touch it, i.e. every later store has its row or its column index inside the data range [:cond_no]
+    stores = sorted((x for x in ast.walk(mat) if isinstance(x, (ast.Assign, ast.AugAssign)) and ast.unparse(x.targets[0] if isinstance(x, ast.Assign) else x.target).startswith("res[")), key=lambda x: x._ord)
+    zero = [x for x in stores if norm_stmt(x) == "res[self.cond_no:, self.cond_no:] = 0"]
+    okz = len(zero) == 1 and zero[0] in mat.body
+    later_bad = []
+    if okz:
+        for x in stores:
+            if x._ord <= zero[0]._ord:
+                continue
+            t = x.targets[0] if isinstance(x, ast.Assign) else x.target
+            sl = t.slice
+            idx = [ast.unparse(e) for e in sl.elts] if isinstance(sl, ast.Tuple) else [ast.unparse(sl)]
+            inside = any(i_ in (":self.cond_no", "np.diag_indices(self.cond_no)") for i_ in idx)
+            if not inside:
+                later_bad.append(norm_stmt(x)[:60])
+    ctx.check(okz and not later_bad, rule, KB + "::Krige._get_krige_mat",
+              "the constraint/constraint block is zeroed unconditionally (np.empty start) and no later store can reach it%s" % ("" if not later_bad else ": " + "; ".join(later_bad)), "zero-last")
     err = [s for s in ast.walk(mat) if isinstance(s, ast.AugAssign)]
     ctx.check(len(err) == 1 and norm_stmt(err[0]) == "res[np.diag_indices(self.cond_no)] += self.cond_err", rule, KB + "::Krige._get_krige_mat", "measurement error is added on the diagonal of the data block only", "diag-err")
     ret = [ast.unparse(s.value) for s in mat.body if isinstance(s, ast.Return)]
@@ -146,9 +161,50 @@ def chunks(ctx, rule="R05.5"):
     for n in ast.walk(call):
         if isinstance(n, ast.Assign) and isinstance(n.targets[0], ast.Name):
             asg.setdefault(n.targets[0].id, []).append(ast.unparse(n.value))
-    ok = (asg.get("chunk_size") == ["pnt_cnt if chunk_size is None else int(chunk_size)"] and asg.get("chunk_no") == ["int(np.ceil(pnt_cnt / chunk_size))"]
-          and asg.get("chunk_slice") == ["(i * chunk_size, min(pnt_cnt, (i + 1) * chunk_size))"] and asg.get("c_slice") == ["slice(*chunk_slice)"])
-    ctx.check(ok, rule, KB + "::Krige.__call__", "chunks are the contiguous, disjoint slices [i*cs, min(n, (i+1)*cs)) for i < ceil(n/cs): they cover every target exactly once", "slices")
+    ok = asg.get("chunk_size") == ["pnt_cnt if chunk_size is None else int(chunk_size)"] and asg.get("chunk_no") == ["int(np.ceil(pnt_cnt / chunk_size))"]
+    ctx.check(ok, rule, KB + "::Krige.__call__", "chunk size defaults to all points; the number of chunks is ceil(n / chunk size)", "chunk-count")
+    # the slices themselves are evaluated for sample sizes: they must tile [0, n) contiguously, whatever arithmetic spells them
+    loops = [n for n in ast.walk(call) if isinstance(n, ast.For) and ast.unparse(n.iter) == "range(chunk_no)"]
+    tiled = None
+    if len(loops) == 1:
+        lp = loops[0]
+        ivar = lp.target.id if isinstance(lp.target, ast.Name) else None
+        tiled = True
+        samples = 0
+        try:
+            for n_pts, cs in ((1, 1), (7, 3), (10, 5), (10, 10), (11, 4), (5, 8)):
+                chunk_no = int(math.ceil(n_pts / cs))
+                cover = []
+                for i in range(chunk_no):
+                    env = {"pnt_cnt": n_pts, "chunk_size": cs, "chunk_no": chunk_no, ivar: i}
+                    sl = {}
+                    for st in lp.body:
+                        if isinstance(st, ast.Assign) and len(st.targets) == 1 and isinstance(st.targets[0], ast.Name):
+                            nm, v = st.targets[0].id, st.value
+                            if isinstance(v, ast.Call) and getattr(v.func, "id", "") == "slice":
+                                if len(v.args) == 1 and isinstance(v.args[0], ast.Starred):
+                                    sl[nm] = tuple(env[ast.unparse(v.args[0].value)])
+                                else:
+                                    sl[nm] = tuple(fold(a, env) for a in v.args)
+                                continue
+                            try:
+                                env[nm] = fold(v, env)
+                            except FoldError:
+                                pass
+                    cs_, c_ = env.get("chunk_slice"), sl.get("c_slice")
+                    if cs_ is None or c_ is None or tuple(cs_) != tuple(c_) or len(c_) != 2:
+                        tiled = False
+                    else:
+                        cover.append(tuple(c_))
+                    samples += 1
+                if cover != [(k * cs, min(n_pts, (k + 1) * cs)) for k in range(chunk_no)]:
+                    tiled = False
+        except (FoldError, KeyError, TypeError):
+            tiled = None
+    if tiled is None:
+        ctx.undecided(rule, KB + "::Krige.__call__", "chunk slices are not evaluable for sample sizes")
+    else:
+        ctx.check(tiled, rule, KB + "::Krige.__call__", "chunks are the contiguous, disjoint slices [i*cs, min(n, (i+1)*cs)) for i < ceil(n/cs): they cover every target exactly once (evaluated for 6 sample sizes); the tuple handed to the assembly equals the slice used for the result", "slices")
     loops = [n for n in ast.walk(call) if isinstance(n, ast.For)]
     ok = len(loops) == 1 and ast.unparse(loops[0].iter) == "range(chunk_no)"
     body = [norm_stmt(s) for s in loops[0].body] if loops else []
@@ -210,6 +266,9 @@ def variants(ctx, rule="R05.7"):
 
 def run(ctx):
     from ..small import none_default_rule
+    from .C20 import closure_rule
+
+    closure_rule(ctx, rule="R05.9", prefix="krige/", floor=1)  # drift monomials are evaluated on the stored conditioning positions: they must not write into them
 
     none_default_rule(ctx, "R05.8", ["krige/"], 10)
     layout(ctx)
